@@ -131,23 +131,30 @@ def mapE {α β : Type} (f : α → Except Err β) : List α → Except Err (Lis
     | .error e, _ => .error e
     | _, .error e => .error e
 
-/-- `prepare_read` + consumers for one entry. A chunked tensor is re-assembled by writing every chunk's bytes
-at its dim-0 position of the output tensor, in the completion order `order` of the chunk consumers (any
-permutation of the chunk list); `Slab.stage` is that "write each piece at its range" loop. -/
-def restoreLeaf (store : Loc UnitId → Option Bytes) (order : List ((Nat × Nat) × UnitLoc) → List ((Nat × Nat) × UnitLoc)) :
+/-- `prepare_read` + consumers for one entry, with the unit reader `rd es shape u` as a parameter (plain
+ranged read, or the tiled read of `read_object(memory_budget_bytes=…)`). Objects are never tiled. A chunked
+tensor is re-assembled by writing every chunk's bytes at its dim-0 position of the output tensor, in the
+completion order `order` of the chunk consumers (any permutation of the chunk list); `Slab.stage` is that
+"write each piece at its range" loop. -/
+def restoreLeafWith (store : Loc UnitId → Option Bytes) (rd : Nat → List Nat → UnitLoc → Except Err Bytes)
+    (order : List ((Nat × Nat) × UnitLoc) → List ((Nat × Nat) × UnitLoc)) :
     LeafEntry → Except Err Leaf
   | .blob u => (readUnit store u).map .blob
   | .tensor dtype shape u =>
-    match readUnit store u with
-    | .error e => .error e
-    | .ok buf => match Ts.Serial.fromMemoryview dtype shape buf with
-      | .ok t => .ok (.tensor t)
-      | .error e => .error (.serial e)
+    match Ts.Serial.torchItemsize dtype with
+    | none => .error .unknownDtype
+    | some es =>
+      match rd es shape u with
+      | .error e => .error e
+      | .ok buf => match Ts.Serial.fromMemoryview dtype shape buf with
+        | .ok t => .ok (.tensor t)
+        | .error e => .error (.serial e)
   | .chunked dtype shape chunks =>
     match Ts.Serial.torchItemsize dtype with
     | none => .error .unknownDtype
     | some es =>
-      match mapE (fun c => (readUnit store c.2).map (fun b => (pieceRange shape es c.1, b))) (order chunks) with
+      match mapE (fun c => (rd es (c.1.2 :: (Ts.Chunk.normShape shape).2) c.2).map (fun b => (pieceRange shape es c.1, b)))
+          (order chunks) with
       | .error e => .error e
       | .ok done =>
         match Ts.Slab.stage (Ts.Chunk.numel shape * es) done with
@@ -155,5 +162,21 @@ def restoreLeaf (store : Loc UnitId → Option Bytes) (order : List ((Nat × Nat
         | .ok buf => match Ts.Serial.fromMemoryview dtype shape buf with
           | .ok t => .ok (.tensor t)
           | .error e => .error (.serial e)
+
+/-- `restore`: every unit is read with one ranged read. -/
+def restoreLeaf (store : Loc UnitId → Option Bytes) (order : List ((Nat × Nat) × UnitLoc) → List ((Nat × Nat) × UnitLoc)) :=
+  restoreLeafWith store (fun _ _ u => readUnit store u) order
+
+/-- `prepare_read_tiled` + `TensorBufferConsumer`s on the flattened output: the unit's stored range is read in
+tiles of at most `limit` bytes (`Chunk.tile`) which are laid out one after the other. -/
+def readTiled (store : Loc UnitId → Option Bytes) (limit : Nat) (es : Nat) (shape : List Nat) (u : UnitLoc) : Except Err Bytes :=
+  match Ts.Chunk.tile shape true es limit u.2 with
+  | .error e => .error (.chunk e)
+  | .ok tiles => (mapE (fun t => readUnit store (u.1, some (t.lo, t.hi))) tiles).map List.flatten
+
+/-- `read_object(path, memory_budget_bytes = limit)` for a tensor / chunked-tensor / object entry. -/
+def readObjectBudget (store : Loc UnitId → Option Bytes) (limit : Nat)
+    (order : List ((Nat × Nat) × UnitLoc) → List ((Nat × Nat) × UnitLoc)) :=
+  restoreLeafWith store (readTiled store limit) order
 
 end Ts.Snapshot
